@@ -11,14 +11,17 @@ IsInf(x) == x = INF
 IsNan(x) == x = NAN
 IsFinite(x) == x > -INF /\ x < INF
 
-Sum(S, f(_)) == MapThenSumSet(f, S)
+(* FoldSet has a Java override in this CommunityModules build, MapThenSumSet has not *)
+Sum(S, f(_)) == FoldSet(LAMBDA x, acc : f(x) + acc, 0, S)
+(* identity that turns a lazily evaluated function constructor into a table once     *)
+Force(f) == IF f = f THEN f ELSE f
 Abs(x) == IF x < 0 THEN -x ELSE x
 Sgn(x) == IF x > 0 THEN 1 ELSE IF x < 0 THEN -1 ELSE 0
 MinOf(S) == CHOOSE x \in S : \A y \in S : x <= y
 MaxOf(S) == CHOOSE x \in S : \A y \in S : x >= y
 Count(S, P(_)) == Cardinality({x \in S : P(x)})
 
-Mat(n, f(_,_)) == [i \in 1..n |-> [j \in 1..n |-> f(i, j)]]
+Mat(n, f(_,_)) == Force([i \in 1..n |-> [j \in 1..n |-> f(i, j)]])
 Zero(n) == Mat(n, LAMBDA i, j : 0)
 IsSquare(n, A) == /\ DOMAIN A = 1..n
                   /\ \A i \in 1..n : DOMAIN A[i] = 1..n
